@@ -149,7 +149,7 @@ func (discard) Write(p []byte) (int, error) { return len(p), nil }
 // ---- generators ----
 
 var stepForms = []string{".Name", ".name", ".secret", ".0", ".7", ".Upper", ".PtrMethod", ".In", ".P", ".NilP", ".Any", ".L", ".M", ".F", ".E", ".X", ".T", ".k", ".a", ".nil",
-	"()", "(1)", `("s")`, "(1, 2)", "(nil)", "(sAbc, i1)", `["a"]`, "[0]", "[iNeg]", "[sAbc]", "[nil]", "[fNaN]", "[slI]", "[mS]", "[iMax]"}
+	"()", "(1)", `("s")`, "(1, 2)", "(nil)", "(sAbc, i1)", `["a"]`, "[0]", "[iNeg]", "[sAbc]", "[nil]", "[fNaN]", "[slI]", "[mS]", "[iMax]", "[stUncmp]", "[ifUncmp]", "[slUncmp.0]", "[arr]", "[st]", "[tm]"}
 
 func tagSchemas() []string {
 	// argument schemas for the built-in tags: {E} = expression slot, filled from the universe and literals
@@ -158,7 +158,9 @@ func tagSchemas() []string {
 		"{% for x in {E} %}{{ x }}{{ forloop.Counter }}{% empty %}e{% endfor %}", "{% for k, v in {E} reversed sorted %}{{ k }}{{ v }}{% endfor %}", "{% for x in {E} sorted %}{{ x }}{% endfor %}", "{% for x in {E} reversed %}{{ x }}{% endfor %}",
 		"{% ifequal {E} {E} %}a{% else %}b{% endifequal %}", "{% ifnotequal {E} {E} %}a{% endifnotequal %}",
 		"{% firstof {E} {E} {E} %}", "{% firstof %}", "{% cycle {E} {E} %}", "{% cycle %}", "{% cycle {E} as c silent %}{{ c }}{% cycle c %}", "{% cycle as c %}", "{% for i in slI %}{% cycle {E} {E} as c %}{% cycle c %}{% endfor %}", "{% for i in sAbc|add:sNum %}{% cycle {E} {E} as c %}{% cycle c {E} {E} %}{% cycle c %}{% endfor %}", "{% for i in sAbc|add:sNum %}{% cycle {E} as c silent %}{% cycle {E} c {E} c %}{% endfor %}",
-		"{% ifchanged {E} {E} %}a{% else %}b{% endifchanged %}", "{% for i in slI %}{% ifchanged {E} %}a{% endifchanged %}{% ifchanged %}{{ {E} }}{% endifchanged %}{% endfor %}",
+		"{% ifchanged {E} {E} %}a{% else %}b{% endifchanged %}",
+		// several watched values of which different ones change from round to round
+		"{% for c in \"abbbc\" %}{% ifchanged c forloop.Last {E} %}x{% else %}y{% endifchanged %}{% ifchanged {E} c forloop.First %}x{% endifchanged %}{% ifchanged forloop.Last forloop.First c {E} %}z{% endifchanged %}{% endfor %}", "{% for i in slI %}{% ifchanged {E} %}a{% endifchanged %}{% ifchanged %}{{ {E} }}{% endifchanged %}{% endfor %}",
 		"{% with a={E} b={E} %}{{ a }}{{ b }}{% endwith %}", "{% with {E} as a %}{{ a }}{% endwith %}", "{% set a = {E} %}{{ a }}",
 		"{% widthratio {E} {E} {E} %}", "{% widthratio {E} {E} {E} as w %}{{ w }}",
 		"{% include {E} %}", "{% include {E} if_exists %}", "{% include \"inc\" with a={E} only %}", "{% include {E} with a={E} %}",
@@ -430,6 +432,12 @@ func run(r *eng.Runner) {
 		}
 	}
 
+	// ---- layer 6b: pongo2's own loaders ----
+	runLoaders(r)
+	if r.Stopped() {
+		return
+	}
+
 	// ---- layer 7: recursion and depth ----
 	r.Group("recursion", "c01.case", "every self- and 2-cycle of include (static, lazy), extends, import, ssi parsed through an in-memory loader, branching and mixed cycles; deep nesting of ( [ if for with filter chains (depth 10000 / 2000); each in a fresh sub-process with a 32 MB stack cap")
 	cyc := map[string]map[string]string{
@@ -489,7 +497,10 @@ func run(r *eng.Runner) {
 	// values that refer to themselves
 	for _, s := range []string{`{% for i in "abc" %}{% cycle c as c %}{% endfor %}`, `{% cycle c as c %}{% cycle c %}{{ c }}`, `{% for i in "ab" %}{% cycle "a" c as c %}{{ c }}{% endfor %}`, `{% cycle c as c silent %}{{ c|upper }}{% if c %}x{% endif %}`,
 		`{% set a = [a] %}{% set a = [a] %}{{ a }}{{ a|join:"," }}`, `{% with x=x %}{% with x=x %}{{ x }}{% endwith %}{% endwith %}`, `{% macro m(p=m) %}{{ p }}{% endmacro %}{{ m() }}`,
-		`{% macro m(a=m()) %}x{% endmacro %}{{ m() }}`, `{% macro a(x=b()) %}x{% endmacro %}{% macro b(x=a()) %}y{% endmacro %}{{ a() }}`, `{% macro m(a=1) %}{{ m(m(a)) }}{% endmacro %}{{ m() }}`, `{% macro m(a) %}{% with z=m(a) %}{{ z }}{% endwith %}{% endmacro %}{{ m(1) }}`} {
+		`{% macro m(a=m()) %}x{% endmacro %}{{ m() }}`, `{% macro a(x=b()) %}x{% endmacro %}{% macro b(x=a()) %}y{% endmacro %}{{ a() }}`, `{% macro m(a=1) %}{{ m(m(a)) }}{% endmacro %}{{ m() }}`,
+		// data that contains itself, where the engine (not fmt) walks it
+		`{% filter default:slCyc %}{% endfilter %}`, `{% filter default:slCyc|length %}{% endfilter %}`, `{% for x in slCyc %}{% for y in x %}{{ y|length }}{% endfor %}{% endfor %}`, `{{ slCyc|length }}{{ slCyc.1.1.1.0 }}{{ mCyc.self.self.a }}`,
+		`{% for k, v in mCyc sorted %}{{ k }}{% endfor %}{{ slCyc|first }}{{ slCyc|slice:"1:" |length }}{% if slCyc == slCyc %}e{% endif %}{% if mCyc %}t{% endif %}`, `{{ pCyc.Next.Next.Any.Name }}{{ pCyc.Next }}{% if pCyc == pCyc.Next %}same{% endif %}`, `{% macro m(a) %}{% with z=m(a) %}{{ z }}{% endwith %}{% endmacro %}{{ m(1) }}`} {
 		r.DoIsolated(&Case{Src: eng.Q(s), Layer: "self-reference"}, 60*time.Second)
 	}
 	for _, lib := range []string{`{% macro m(a=m()) export %}x{% endmacro %}`, `{% macro m() export %}{{ m() }}{% endmacro %}`, `{% macro m(a=n()) export %}x{% endmacro %}{% macro n(a=m()) export %}y{% endmacro %}`} {
